@@ -37,6 +37,20 @@ AVOID = {
 }
 
 EMPHASIS = {
+    15: ("This time the choice is yours. Assume that the property is guarded by a strong randomised (property-based) test suite written by someone who "
+         "knows the library well, in addition to the existing unit tests. That suite already draws: decimal and integer coordinates of every array type, "
+         "collections with one to three axes and with 64 and more elements (also as overlapping views of one collection), objects far from the origin, tiny radii, "
+         "nearly tangent / parallel / coincident configurations, points at infinity up to rounding, complex points and representatives with complex factors "
+         "(also the ones the library itself returns), lines of 3-space in covariant form, elements obtained by indexing or iterating collections, non-convex "
+         "polygons and polyhedra, regular polygons after arbitrary maps, coinciding arguments, diagrams that are used further after a refused edge, item "
+         "assignment, boolean and scalar indices, matrices with special structure; it compares every equivalent way of asking the same question, re-inspects "
+         "earlier results after later calls and compares with a fresh interpreter. "
+         "Choose the change that you judge LEAST likely to be found by such a suite while a real user could still plausibly run into it. Prefer a mistake in the "
+         "LOGIC of a less travelled branch: a wrong case distinction, a wrong pairing or ordering of elements, a sign / orientation convention, an index or axis "
+         "mix-up that symmetric or square data hide, an off-by-one in a loop over vertices / faces / axes, a clause of the property that is easy to overlook. "
+         "Say in NOTES.md why you believe it is hard to find. "
+         "Do NOT use memoisation / caching / shared buffers, do not mutate an argument in place, and do not make the change depend on magnitudes, dtypes, "
+         "tolerances or collection sizes."),
     14: ("This time the choice is yours. Assume that the property is guarded by a strong randomised (property-based) test suite written by someone who "
          "knows the library well, in addition to the existing unit tests. That suite already draws: coordinates that are decimal fractions (0.1, 0.7, 1/3) as well "
          "as small integers, every integer and floating-point array type over its whole range, collections with one to three axes and with 64 and more elements, "
